@@ -32,16 +32,25 @@ def rel_c04(row):
     return row['f'].get('dl', '0') == '1'
 
 
+LIST_CMDS = {'lpush', 'lpushx', 'rpush', 'rpushx', 'lpop', 'rpop', 'llen', 'lrange', 'lindex', 'lset', 'ltrim', 'lrem', 'lmove'}
+HASH_CMDS = {'hset', 'hsetnx', 'hget', 'hmget', 'hstrlen', 'hvals', 'hrandfield', 'hlen', 'hkeys', 'hincrby', 'hincrbyfloat', 'hgetall', 'hexists', 'hdel'}
+SET_CMDS = {'sadd', 'scard', 'sdiff', 'sdiffstore', 'sinter', 'sintercard', 'sinterstore', 'sismember', 'smembers', 'smismember', 'smove', 'spop', 'srandmember', 'srem', 'sunion', 'sunionstore'}
+ALL_DATA = [('kv', []), ('list', []), ('hash', []), ('set', [])]
+C01_ONLY = {'numeric-text-rewritten', 'integer-overflow-wraps', 'setrange-absent-key-creates-nothing', 'setrange-non-ascii-bytes-corrupted',
+            'getrange-index-panic', 'rename-onto-itself-deletes', 'mget-empty-string-as-nil', 'flushdb-before-first-write-panics',
+            'get-on-collection-answers-dump', 'simple-string-reply-carries-crlf'}
+
 PROPS = {
     'C01': dict(suites=[('kv', [])], column='kv', relevant=rel_c01, title='Keyspace is a sequential typed map'),
     'C04': dict(suites=[('kv', [])], column='kv', relevant=rel_c04, title='Expiry',
-            # rejections owned by C01 (not about deadlines) that merely happen on keys carrying a deadline
-            ignore_classes={'numeric-text-rewritten', 'integer-overflow-wraps', 'setrange-absent-key-creates-nothing', 'setrange-non-ascii-bytes-corrupted',
-                            'getrange-index-panic', 'rename-onto-itself-deletes', 'mget-empty-string-as-nil', 'flushdb-before-first-write-panics',
-                            'get-on-collection-answers-dump', 'simple-string-reply-carries-crlf'}),
-    'C13': dict(suites=[('kv', [])], column='pure', relevant=lambda r: True, title='Read-only commands are pure'),
-    'C19': dict(suites=[('kv', [])], column='mem', clscol='mcls', relevant=lambda r: True, title='Memory figure is a function of the dataset'),
-    'C20': dict(suites=[('kv', [])], column='iso', relevant=lambda r: True, title='Logical databases are isolated'),
+                # rejections owned by other properties (not about deadlines) that merely happen on keys carrying a deadline
+                ignore_foreign=True),
+    'C13': dict(suites=ALL_DATA, column='pure', clscol='pcls', relevant=lambda r: True, title='Read-only commands are pure'),
+    'C14': dict(suites=[('hash', [])], column='kv', relevant=lambda r: r['name'] in HASH_CMDS, title='Hash commands'),
+    'C15': dict(suites=[('list', [])], column='kv', relevant=lambda r: r['name'] in LIST_CMDS, title='List commands'),
+    'C16': dict(suites=[('set', [])], column='kv', relevant=lambda r: r['name'] in SET_CMDS, title='Set commands'),
+    'C19': dict(suites=ALL_DATA, column='mem', clscol='mcls', relevant=lambda r: True, title='Memory figure is a function of the dataset'),
+    'C20': dict(suites=ALL_DATA, column='iso', relevant=lambda r: True, title='Logical databases are isolated'),
 }
 
 # ---------------------------------------------------------------------------------------------
@@ -393,6 +402,10 @@ def decide(cx, prop, tier, seed, t_start):
 
     col = spec['column']
     clscol = spec.get('clscol', 'cls')
+    if spec.get('ignore_foreign'):
+        allc = set(json.load(open(os.path.join(cx.root, 'findings', 'descriptions.json'))))
+        mine = set(json.load(open(os.path.join(cx.root, 'findings', 'owners.json'))).get(prop, []))
+        spec = dict(spec, ignore_classes=allc - mine)
     rel = [r for r in rows_all if r['model'] == 'HANG' or spec['relevant'](r)]
     counts = collections.Counter()
     diffs, rejs_unknown, rejs_known = [], [], collections.Counter()
